@@ -96,7 +96,8 @@ PROPS.update({
     },
     "C08": {
         "technique": "bounded-exhaustive enumeration of inputs and configurations against a reference model, plus stateless controlled-scheduler exploration of the items of the data-parallel batch path",
-        "parts": [ktmc("C08"), ktmc("C08batch")],
+        "needs": ["harness", "cli"],
+        "parts": [ktmc("C08"), ktmc("C08batch"), lambda tier: __import__("hist").c_env_threads(tier, ["cov"])],
         "rule": "per-record histogram routine on every string over {A,C,G,T,N} up to the stated length x k 1..=3 x 6 "
                 "bin shapes with synthetic tables (multiplicities at the bin edges, 10^6, u32::MAX, absent); the "
                 "whole pipeline on every list of <= 2 (thorough 3) short records x k x bin shapes x norm/raw x "
@@ -165,7 +166,8 @@ PROPS.update({
     "C05": {
         "engine": "ktmc-sched",
         "technique": "stateless controlled-scheduler exploration of worker interleavings (iterative preemption bounding) plus exhaustive configuration lattice",
-        "parts": [ktmc("C05sched"), ktmc("C05cfg"), ktmc("C04batch")],
+        "needs": ["harness", "cli"],
+        "parts": [ktmc("C05sched"), ktmc("C05cfg"), ktmc("C04batch"), lambda tier: __import__("hist").c_env_threads(tier, ["oligo"])],
         "rule": "schedules: depth-first exploration by re-execution of every interleaving of the real mmap worker loop "
                 "(N=2 and the small N=3 case unbounded, larger N=3 and N=4 up to the stated preemption bound) over 2-6 "
                 "records with pairwise different rows, at the default and at small batch-memory limits; oracle per schedule: output bytes = rows in input order; observed record->worker assignments "
@@ -194,7 +196,8 @@ PROPS.update({
     "C07": {
         "engine": "ktmc-sched",
         "technique": "stateless controlled-scheduler exploration of count/merge worker interleavings with phase-barrier state caching, plus exhaustive configuration enumeration",
-        "parts": [ktmc("C07sched"), ktmc("C07cfg")],
+        "needs": ["harness", "cli"],
+        "parts": [ktmc("C07sched"), ktmc("C07cfg"), lambda tier: __import__("hist").c_env_threads(tier, ["ctr"])],
         "rule": "schedules: every interleaving (up to the stated preemption bound) of the real count() workers - limit "
                 "check, reader mutex, record taken, every map operation, atomic additions, exit - for 2-3 workers and "
                 "2-4 records colliding on the same k-mers (same strand and opposite strands, with records that hold "
